@@ -242,6 +242,15 @@ int main()
     else if(hxIs(l, "appendC", 2)) { if(!isByte(l.tok[2], c)) BAD(); s.append((char)c); }
     else if(hxIs(l, "prependS", 2)) { if(!isVar(l.tok[2], w)) BAD(); s.prepend(*var[w]); }
     else if(hxIs(l, "prepend", 2)) { if(!isHexTok(l.tok[2])) BAD(); d = (char*)hxBytes(l.tok[2], len); s.prepend(d, len); }
+    else if(hxIs(l, "appendA", 3) || hxIs(l, "prependA", 3))
+    {
+      // a pointer into the string's own storage, taken through the C string view before the call
+      usize o = hxNum(l, 2), n = hxNum(l, 3);
+      if(o + n > s.length()) BAD();
+      const char* p = s;
+      if(l.tok[0][0] == 'a') s.append(p + o, n);
+      else s.prepend(p + o, n);
+    }
     else if(hxIs(l, "replaceC", 3)) { if(!isByte(l.tok[2], c) || !isByte(l.tok[3], c2)) BAD(); s.replace((char)c, (char)c2); }
     else if(hxIs(l, "lower", 1)) s.toLowerCase();
     else if(hxIs(l, "upper", 1)) s.toUpperCase();
